@@ -190,7 +190,11 @@ theorem getAttrsStep_in_range {c : Ctx} {ver : Nat} {o : Obj} {name : String} {a
               simp only [tattrInRange, Bool.and_eq_true]
               refine ⟨avalInRange_of_strong _ _ (hvs _ hz.2), ?_⟩
               have : iv.1 < vs.length := List.mem_range.1 hz.1
-              sorry
+              rw [optAll_some, i32_iff]
+              simp only [Kmip.TTLV.fitsTC]
+              have h4 : ((256 ^ 4 : Nat) : Int) = 4294967296 := by decide
+              rw [h4]
+              omega
             | single v => simp only at h; inv h
           · cases got with
             | single v =>
@@ -270,5 +274,89 @@ theorem deleteAttribute_in_range {c : Ctx} {e : Engine} {u : Option String} {nam
             | some a => exact hall a (List.mem_of_getElem? hx)
           · inv hdel
       · inv hdel; subst hdel; rfl
+
+/-- from 2.0 on ModifyAttribute echoes no attribute -/
+theorem modifyCore_20 {c : Ctx} {ver : Nat} {o : Obj} {attr current new : Option TAttr} {r : Obj × Option TAttr}
+    (hv : 20 ≤ ver) (h : modifyCore c ver o attr current new = .ok r) : r.2 = none := by
+  unfold modifyCore at h
+  rw [if_pos hv] at h
+  split at h
+  · inv h
+  · inv h
+    obtain ⟨_, _, _, _, mv, _, h⟩ := h
+    split at h
+    · inv h; obtain ⟨_, _, _, _, rfl⟩ := h; rfl
+    · inv h; obtain ⟨_, _, _, _, rfl⟩ := h; rfl
+
+/-- **Every successful result of the engine model is in range when the store and the server's version list are**
+- except the attribute a KMIP 1.x ModifyAttribute echoes, which is read back from the object AFTER the
+modification and therefore depends on the range of the value in the request. -/
+theorem processOperation_in_range {c : Ctx} {e : Engine} {it : Kmip.Item} {eff : Effect} {d : Data}
+    (hs : StoreInRange e.store) (hv : ∀ v ∈ c.supportedVersions, v < 21474836480)
+    (hm : ∀ u a cu nw, it.payload = .modifyAttribute u a cu nw → 20 ≤ e.version)
+    (h : processOperation c e it = .ok (eff, d)) : dataInRange d = true := by
+  unfold processOperation at h
+  split at h
+  · inv h
+  · split at h
+    · inv h
+    · split at h <;> rename_i hpay
+      · unfold opCreate at h; inv h; strip h; rfl
+      · unfold opCreateKeyPair at h; inv h; strip h; rfl
+      · unfold opRegister at h
+        inv h
+        obtain ⟨_, h⟩ := h
+        split at h
+        · inv h
+        · inv h; strip h; rfl
+      · unfold opDeriveKey at h; inv h; strip h; rfl
+      · unfold opLocate at h; inv h; strip h; rfl
+      · exact get_in_range hs h
+      · exact getAttributes_in_range hs h
+      · unfold opGetAttributeList at h; inv h; strip h; rfl
+      · unfold opActivate at h
+        inv h
+        obtain ⟨o, _, h⟩ := h
+        split at h
+        · inv h
+        · inv h; obtain ⟨_, _, rfl⟩ := h; rfl
+      · unfold opRevoke at h
+        split at h
+        · inv h
+        · inv h
+          obtain ⟨o, _, h⟩ := h
+          split at h
+          · inv h
+          · split at h
+            · inv h; obtain ⟨_, rfl⟩ := h; rfl
+            · inv h; obtain ⟨_, _, rfl⟩ := h; rfl
+      · unfold opDestroy at h; inv h; strip h; rfl
+      · unfold opQuery at h
+        inv h
+        obtain ⟨_, _, rfl⟩ := h
+        simp only [dataInRange]
+        split <;> (repeat' split) <;> decide
+      · unfold opDiscoverVersions at h
+        split at h <;> inv h <;> obtain ⟨_, rfl⟩ := h <;> simp only [dataInRange, List.all_eq_true, decide_eq_true_eq]
+        · exact hv
+        · intro v hv'; exact hv v (List.contains_iff_mem.1 (List.mem_filter.1 hv').2)
+      · unfold opEncrypt at h; inv h; obtain ⟨_, _, h⟩ := h
+        rcases cryptoResult_shape h with ⟨t, _, rfl⟩ | ⟨b, _, rfl⟩ <;> rfl
+      · unfold opDecrypt at h; inv h; obtain ⟨_, _, h⟩ := h
+        rcases cryptoResult_shape h with ⟨t, _, rfl⟩ | ⟨b, _, rfl⟩ <;> rfl
+      · unfold opSign at h; inv h; obtain ⟨_, _, h⟩ := h
+        rcases cryptoResult_shape h with ⟨t, _, rfl⟩ | ⟨b, _, rfl⟩ <;> rfl
+      · unfold opSignatureVerify at h; inv h; obtain ⟨_, _, h⟩ := h
+        rcases cryptoResult_shape h with ⟨t, _, rfl⟩ | ⟨b, _, rfl⟩ <;> rfl
+      · unfold opMac at h; inv h; strip h
+        rcases cryptoResult_shape h with ⟨t, _, rfl⟩ | ⟨b, _, rfl⟩ <;> rfl
+      · unfold opSetAttribute at h; inv h; strip h; rfl
+      · unfold opModifyAttribute at h
+        inv h
+        obtain ⟨o, _, r, hr, _, rfl⟩ := h
+        have := modifyCore_20 (hm _ _ _ _ hpay) hr
+        simp only [dataInRange, this]; rfl
+      · exact deleteAttribute_in_range hs h
+      · inv h
 
 end Kmip.Encode
